@@ -9,7 +9,8 @@ KERNEL_NOTE = ('real instead of float arithmetic; decimal literals within 5e-14;
                '(generic stored entry, cmverif/segcoo.py; numpy mask selection / concatenate / where / fancy assignment trusted); the .pyx -> ast extraction (A5); the prebuilt '
                '.so cannot be rebuilt here (no Cython) so the verdict is about the source tree, binary replays are attached where they reproduce')
 
-EIG_NOTE = ('the contracts of scipy eigsh/eigs/eigh/eig and of sparse.remove_null_cols are ASSUMED (stated in cmverif/eigctx.py): eigenpairs of the pair '
+EIG_NOTE = ('the contracts of scipy eigsh/eigs/eigh/eig are ASSUMED (stated in cmverif/eigctx.py; the one of sparse.remove_null_cols used by the wrapper checks is '
+            'proved from its source on abstract matrices: X[U,:][:,U] with U = unique(columns of the non-zeros of the first matrix)): eigenpairs of the pair '
             'they are given, in the requested count, 0<k<n required, numerical failure possible while null columns are present; solver precision, ARPACK '
             'ordering, positivity/ascending order of computed values and sparse/dense agreement are not decidable by contracts and are not claimed')
 
@@ -136,10 +137,11 @@ CHECKS = {
           'contributes [fx,fy,fz].g(x_f,y_f) of its own panel at that panel\'s range, incrementable forces exactly once times the load factor; the fg/cfg kernel is '
           'proved to write g[d,3(jm+i)+d] = f_i g_j, which with the C11 series contract makes f.c the virtual work; sparse.solve and analysis.static are executed over '
           'abstract arrays for all sizes (K restricted to its non-null columns, f restricted likewise, solution scattered into zeros); StiffPanelBay.calc_fext is '
-          'executed symbolically for 0..2 skin forces: each contributes [fx,fy,fz].g(x_f,y_f) of the skin domain (1 fixed defect).'),
+          'executed symbolically for 0..2 skin forces and for bays with 1..3 two-dimensional stiffeners (one force per component): the load vector is the concatenation '
+          'skin | blade flanges | T base, T flange in the order the matrices use, each part [fx,fy,fz].g(x_f,y_f) of its own component (1 fixed defect).'),
     design_ref='DESIGN.md section 4 (C07)',
-    note=('spsolve and remove_null_cols through assumed contracts (the real remove_null_cols/solve additionally by the bounded run-time stand-in); numbers of panels and '
-          'forces bounded (1..2 panels, 0..2 forces of each kind); linearity follows from the structure of the result, not separately proved; the stiffener point forces of StiffPanelBay.calc_fext are not under contract'),
+    note=('spsolve through an assumed contract (remove_null_cols proved from its source on abstract matrices, the real solve additionally by the bounded run-time stand-in); numbers of panels and '
+          'forces bounded (1..2 panels, 0..2 forces of each kind); linearity follows from the structure of the result, not separately proved; bays: 1..3 stiffeners in 4 orders of kinds'),
     technique='contracts + symbolic execution (object arrays, abstract arrays); exact normal form; bounded stand-in for sparse.py'),
  'C11': dict(
     category='proof',
